@@ -430,7 +430,7 @@ impl Hist {
         let tag = if !exists { "no-ca" } else if r.is_ok() { "ok" } else { "failed" };
         StepOut { ops, desc: json!({"op": "sync_repo", "ca": ca, "publisher_removed": removed, "result": tag}),
                   res: if exists { Some(r) } else { None },
-                  class: json!({"op": "sync_repo", "published_shadow_stale": stale}), kind: format!("sync_repo:{tag}") }
+                  class: json!({"op": "sync_repo", "result": tag, "published_shadow_stale": stale}), kind: format!("sync_repo:{tag}") }
     }
 
     /// ORevokeAll term for the revocations `ca` sends to parent `p` (delete_ca / ca_parent_remove), built after the call.
@@ -468,7 +468,7 @@ impl Hist {
         if let Some(n) = plan { ops.push(self.revoke_all_op(&l, n, &adm, v0, v1)); }
         ops.push(format!("ORemoveParent {} {}", qs(&l.ca), qs(&l.p)));
         StepOut { ops, desc: json!({"op": "parent_remove", "ca": l.ca, "parent": l.p, "ok": r.is_ok()}), res: None,
-                  class: json!({"op": "parent_remove", "status_entry_with_slash_handle": l.p.contains('/')}), kind: "parent_remove".into() }
+                  class: json!({"op": "parent_remove"}), kind: "parent_remove".into() }
     }
 
     fn step_delete_ca(&mut self, ca: &str) -> StepOut {
@@ -594,7 +594,7 @@ fn run_history(args: &Args, id: u64, seed: u64, n_ops: u64, slash: bool, readd: 
             "repo" => h.step_sync_repo(&who),
             "child_remove" => { let l = h.links[&who].clone(); let r = h.sys().child_remove(&l.pc, &l.ch);
                 let mut s = plain("child_remove", json!({"op": "child_remove", "parent_ca": l.pc, "child": l.ch, "ok": r.is_ok()})); s.ops.push(format!("ORemoveChild {} {}", qs(&l.pc), qs(&l.ch)));
-                s.class["status_entry_with_slash_handle"] = json!(l.ch.contains('/')); s }
+                s }
             "child_readd" => { // (re-)create the CA if it was deleted, (re-)register it with its parent
                 let mut fresh = false;
                 if !has_ca(h.sys(), &who) { fresh = h.create_ca(&who).is_ok() || has_ca(h.sys(), &who); if server_files(h.sys(), &who).is_ok() { h.pub_removed.remove(&who); } if fresh { h.shadow_stale.remove(&who); } }
@@ -643,12 +643,29 @@ fn run_history(args: &Args, id: u64, seed: u64, n_ops: u64, slash: bool, readd: 
                 plain("publisher_readd", json!({"op": "publisher_readd", "publisher": who, "ok": ok})) }
             _ => { let r = h.sys().republish(true); plain("republish", json!({"op": "republish", "ok": r.is_ok()})) }
         };
+        let mut so = so;
+        if so.kind == "child_remove" || so.kind == "parent_remove" {
+            // the known consequence of F19a: the entry (handle with '/') was lost from the cache by an earlier restart,
+            // so the removal does not find it and leaves its file behind
+            let l = h.links[&who].clone();
+            let (owner, sect, name, key) = if so.kind == "child_remove" { (l.pc.clone(), "children", l.ch.clone(), format!("children-{}.json", l.ch.replace('/', "+"))) }
+                                           else { (l.ca.clone(), "parents", l.p.clone(), format!("parents-{}.json", l.p.replace('/', "+"))) };
+            let in_cache = pre.cache.get(&owner).map(|v| !v[sect][&name].is_null()).unwrap_or(false);
+            let in_store = pre.store.get(&owner).map(|k| k.contains_key(&key)).unwrap_or(false);
+            so.class["status_entry_with_slash_handle"] = json!(name.contains('/') && !in_cache && in_store);
+        }
         // follow-ups that make the interesting exchanges happen: the removed / suspended child calls in, the CA whose
         // publisher is gone publishes, a key roll or an entitlement change is followed through
         match kind.as_str() {
             "child_remove" | "suspend" | "entitle" | "roll_init" | "roll_activate" if script.is_empty() => { script.push_back(("sync".into(), who.clone())); script.push_back(("sync".into(), who.clone())); }
             "inactive" if script.is_empty() => { script.push_back(("sync".into(), if rng.chance(50) { b.clone() } else { c.clone() })); }
             "pub_remove" | "pub_readd" | "roa" if script.is_empty() => { script.push_back(("repo".into(), who.clone())); }
+            // a CA created again under the same handle whose very first exchange with the parent is refused
+            "delete" if script.is_empty() && rng.chance(60) => {
+                for k in ["child_readd", "child_remove", "sync", "sync", "child_readd", "sync", "sync", "repo"] { script.push_back((k.into(), who.clone())); } }
+            // handles with '/': a removal right after a restart meets an entry that the restart lost
+            "restart" if h.slash && script.is_empty() && rng.chance(40) => {
+                if rng.chance(50) { script.push_back(("child_remove".into(), c.clone())); } else { script.push_back(("parent_remove".into(), b.clone())); } }
             _ => {}
         }
         let post = observe(h.sys(), &cas);
